@@ -258,10 +258,12 @@ def VPairs.any (f : Value → Value → Bool) : VPairs → Bool
   | .cons k v t => f k v || t.any f
 
 mutual
-  /-- `Value::eq` (value/mod.rs:49).  In the `List == ArgList` arm the code evaluates
-      `other == self`, i.e. compares each pair as (arglist element, list element); the model
-      compares (list element, arglist element) — indistinguishable whenever element equality is
-      symmetric (theorem `C09_veq_symm`). -/
+  /-- `Value::eq` (value/mod.rs:49).  The `argAsList = true` branches are the code as it stands
+      (an argument list equals exactly the unbracketed comma list of its positional elements and
+      any argument list with equal positional elements).  In the `List == ArgList` arm the code
+      evaluates `other == self`, i.e. compares each pair as (arglist element, list element); the
+      model compares (list element, arglist element) — indistinguishable whenever element equality
+      is symmetric (theorem `C09_veq_symm`). -/
   def veq (sw : Sw) : Value → Value → Bool
     | .null, .null => true
     | .bool a, .bool b => a == b
@@ -479,8 +481,8 @@ mutual
 end
 
 /-- The values for which the variant `sw` is claimed to behave as the property demands:
-    everything for `Sw.spec`; for the code as it stands, values without argument lists (K2/K3)
-    whose convertible numbers carry the canonical unit (K1). -/
+    everything for `Sw.now` = `Sw.spec`; for a variant without the K1/K2 repairs, values without
+    argument lists (K2) whose convertible numbers carry the canonical unit (K1). -/
 def inScope (sw : Sw) (v : Value) : Bool :=
   (sw.argAsList || noArgList v) && (sw.canonSame || unitsCanon v)
 
